@@ -1047,7 +1047,8 @@ pub fn run_program(prog: &Value, w: &mut dyn std::io::Write) -> u64 {
                 }
                 out.emit(ev);
                 // after an injected device fault the state is not trusted any more: stop here
-                let faulted = dev.0.borrow().fault_hit.is_some();
+                let faulted = dev.0.borrow().fault_hit.is_some()
+                    && fault.as_ref().and_then(|f| f.get("continue")).and_then(Value::as_bool) != Some(true);
                 if panicked || hung || faulted {
                     end = End::Panic;
                     stop_after = faulted;
